@@ -32,7 +32,7 @@ def apply(c):
     # ---- SOA::write_common
     c.contract('dns/rdata/soa.rs', "impl<'a> SOA<'a> {", 'write_common', """
         ensures r is Ok ==> wrote(old(out), final(out), enc_be(self.serial as nat, 4) + enc_be(i32_bits(self.refresh), 4)
-            + enc_be(i32_bits(self.retry), 4) + enc_be(i32_bits(self.expire), 4) + enc_be(self.minimum as nat, 4)), // @C10:encoded-per-rfc
+            + enc_be(i32_bits(self.retry), 4) + enc_be(i32_bits(self.expire), 4) + enc_be(self.minimum as nat, 4)), // @C10:encoded-per-rfc,C02:encoded-per-rfc,C04:emits-exactly-its-encoding
 """)
     # ---- NULL
     rel = 'dns/rdata/null.rs'
@@ -92,7 +92,7 @@ pub proof fn lemma_opt_items_push(cs: Seq<OPTCode>, c: OPTCode)
     open spec fn wf_canon(&self) -> bool { true }
     open spec fn wf_nocomp() -> bool { false }
     proof fn lemma_rt(&self, pre: Seq<u8>) { lemma_tlv16_rt(pre, opt_items(self.opt_codes@)); }
-""", verified_inherent=('extract_rcode_from_ttl', 'encode_ttl'), external_trait_fns=('write_compressed_to', 'len'))
+""", verified_inherent=('extract_rcode_from_ttl', 'encode_ttl'), external_trait_fns=('len',))
     OPT_IMPL = "impl<'a> OPT<'a> {"
     c.contract(rel, OPT_IMPL, 'encode_ttl', """
         ensures r == crate::dns::header::opt_ttl(header.response_code, self.version), // @C09:ttl-layout
@@ -173,7 +173,7 @@ impl<'a> TXT<'a> {
     open spec fn wf_canon(&self) -> bool { self.items().len() > 0 }
     open spec fn wf_nocomp() -> bool { false }
     proof fn lemma_rt(&self, pre: Seq<u8>) { lemma_lv8_rt(pre, self.items()); }
-""", external_trait_fns=('write_compressed_to',))
+""", external_trait_fns=())
     c.contract(rel, TXT_WF, 'parse', "", pre_body="\n        let ghost p0 = *position as int;\n")
     c.loop_spec(rel, TXT_WF, 'parse', 0, """
             invariant *position <= data.len(), data.len() <= isize::MAX, p0 <= *position, initial_position == p0,
@@ -229,7 +229,7 @@ pub proof fn lemma_nsec_items_push(ms: Seq<TypeBitMap>, m: TypeBitMap)
     open spec fn wf_nocomp() -> bool { true }
     #[verifier::external_body]
     proof fn lemma_rt(&self, pre: Seq<u8>) {}
-""", external_trait_fns=('write_compressed_to', 'write_to', 'len'))
+""", external_trait_fns=('write_to', 'len'))
     c.sub(rel, "is_some_and(|f: &TypeBitMap<'_>| f.window_block >= window_block)",
           "is_some_and(|f: &TypeBitMap<'_>| -> (b: bool) ensures b == (f.window_block >= window_block) { f.window_block >= window_block })")
     c.log.append(('closure-contract', rel, 'NSEC::parse: window-order predicate gets `ensures b == (f.window_block >= window_block)`'))
@@ -289,7 +289,7 @@ impl<'a> SVCB<'a> {
     open spec fn wf_nocomp() -> bool { true }
     #[verifier::external_body]
     proof fn lemma_rt(&self, pre: Seq<u8>) {}
-""", external_trait_fns=('write_compressed_to', 'write_to', 'len'))
+""", external_trait_fns=('write_to', 'len'))
     c.contract(rel, SVCB_WF, 'parse', "", pre_body="\n        let ghost p0 = *position as int;\n")
     c.ghost(rel, SVCB_WF, 'parse', "let mut params = BTreeMap::new();", "        let ghost q0 = *position as int;\n        let ghost mut items: Seq<(u16, Seq<u8>)> = Seq::empty();", where='after')
     c.loop_spec(rel, SVCB_WF, 'parse', 0, """
@@ -380,7 +380,7 @@ pub open spec fn gw_enc(g: &Gateway) -> Seq<u8> {
             }
         }
     }
-""", external_trait_fns=('write_compressed_to',))
+""", external_trait_fns=())
     c.ghost(rel, IPS_WF, 'parse', "*position += 4;", """
                 proof { assert(seq![data@[*position as int], data@[*position + 1], data@[*position + 2], data@[*position + 3]] =~= data@.subrange(*position as int, *position + 4)); }
 """, where='before')
